@@ -386,7 +386,13 @@ func (r *Recorder) Summary() string {
 			}
 		}
 		if c.Cut {
-			st += "(cut)"
+			// the call was in flight when its server process stopped: which error the dying process's gRPC layer hands
+			// the caller (Canceled, Unavailable) is decided by real goroutine timing and means nothing
+			if c.Returned {
+				st = "cut"
+			} else {
+				st += "(cut)"
+			}
 		}
 		fmt.Fprintf(&sb, "| call%d:%s:%s tx=%d ", i, c.Op.Kind, st, c.TxIndex)
 	}
